@@ -243,6 +243,8 @@ def proof_side_file_uncached(pid, stem, thorough=False):
 PROP_GEN = {
     "C15": {"modules": ["LoopRangeGen"], "files": ["GenLinkLoopRange.v", "GenPropsLoopRange.v", "C15g.v"],
             "main_deps": ["LoopRangeProofs.vo", "GenBase.vo"], "main_cone": ["LoopRangeProofs.v", "GenBase.v"]},
+    "C08": {"modules": ["LiteralGen"], "files": ["GenLinkLiteral.v", "GenPropsLiteral.v", "C08g.v"],
+            "main_deps": ["LiteralProofs.vo", "GenBase.vo"], "main_cone": ["LiteralProofs.v", "GenBase.v"]},
     "C11": {"modules": ["PartitionGen"], "files": ["GenLinkPartition.v", "GenPropsPartition.v", "C11g.v"],
             "main_deps": ["PartitionProofs.vo", "MergeProofs.vo", "GenBase.vo"], "main_cone": ["PartitionProofs.v", "MergeProofs.v", "GenBase.v"]},
     "C12": {"modules": ["PartitionGen"], "files": ["GenLinkPartition.v", "GenPropsPartition.v", "C12g.v"],
